@@ -86,8 +86,19 @@ func corpus() []*out.Scenario {
 		cx.Toks = cx.Src
 		seq(false, cx)
 	}
-	// an attribute named id in a name space is taken for the stanza's id (known)
-	seq(false, tokCall("send", "Send", "", el("", "message", []out.MAttr{at("", "m", "c10"), at("urn:a", "id", "x")}, body)))
+	// attributes that share only the local name of id / from / xmlns are not the
+	// stanza's id, from and name space declaration (fixed)
+	seq(true, tokCall("send", "Send", "", el("", "message", []out.MAttr{at("", "m", "c10"), at("urn:a", "id", "x"), at("urn:a", "from", ""), at(out.XMLURL, "id", "")}, body)),
+		tokCall("tokenwriter", "TokenWriter", "", el(out.NSServer, "presence", []out.MAttr{at("", "m", "c12"), at("urn:a", "xmlns", "v")},
+			el("urn:x", "x", []out.MAttr{at("urn:a", "xmlns", "w"), at("", "xmlns", "urn:x")}))))
+	// ... except in SendIQ / SendMessage / SendPresence, whose id lookup is by local
+	// name: the empty {urn:a}id is overwritten with the generated id (known)
+	{
+		iq := el("", "iq", []out.MAttr{at("", "m", "c13"), at("urn:a", "id", ""), at("", "type", "result")})
+		cx := &out.Call{Kind: "sendx", SKind: "iq", API: "SendIQ", Src: iq.Tokens(), Expect: iq}
+		cx.Toks = cx.Src
+		seq(false, cx)
+	}
 	// nested stanza-named children, xmlns attributes, large payload
 	big := make([]byte, 9000)
 	for i := range big {
